@@ -41,6 +41,10 @@ class Query:
 
 import threading, contextlib
 _RETRY_LOCK = threading.Lock(); _NOLOCK = contextlib.nullcontext()
+# multisig queries with signatures need 4-9 GB each for cbmc plus the external solver: at most 3 of them run at a time
+_HEAVY = threading.Semaphore(3)
+def _is_heavy(q):
+    return any(d.startswith('H_MS_SIGS=') and d != 'H_MS_SIGS=0' for d in q.defines)
 
 def _limits():
     import resource
@@ -132,7 +136,7 @@ def run_query(q, pid, tier):
         for attempt in range(3):
             # a failed start of the external solver (fork of a multi-GB cbmc process under memory pressure) shows up as
             # "unexpected response": retried, one query at a time
-            with (_RETRY_LOCK if attempt else _NOLOCK):
+            with (_RETRY_LOCK if attempt else _NOLOCK), (_HEAVY if _is_heavy(q) else _NOLOCK):
                 rc, so, se, secs = sh(cmd, wd, q.timeout, out=os.path.join(wd, 'cbmc.json'))
             res['solver_secs'] = secs
             if se == 'TIMEOUT':
